@@ -50,10 +50,15 @@ def make_env():
     RB = type("RB", (Register,), {"IDENTIFIER": "BB", "IDENTIFIER_DIGITS": 2, "LINE": shared_line, "__slots__": []})
     RC = type("RC", (Register,), {"IDENTIFIER": "CC", "IDENTIFIER_DIGITS": 2, "LINE": Line([f_int, LiteralField(3, 8)], delimiter=None), "__slots__": []})
     RD = type("RD", (Register,), {"IDENTIFIER": "DD", "IDENTIFIER_DIGITS": 2, "LINE": Line([f_lit, f_int], delimiter=";"), "__slots__": []})
-    RF = type("RF", (RegisterFile,), {"REGISTERS": [RA, RB, RC, RD], "__slots__": []})
+    from cfinterface.components.datetimefield import DatetimeField
+
+    # a date field with a list of formats that overlap on some texts, used by every register of RE
+    f_date = DatetimeField(10, 3, format=["%m/%d/%Y", "%d/%m/%Y"])
+    RE = type("RE", (Register,), {"IDENTIFIER": "EE", "IDENTIFIER_DIGITS": 2, "LINE": Line([f_date, LiteralField(3, 14)]), "__slots__": []})
+    RF = type("RF", (RegisterFile,), {"REGISTERS": [RA, RB, RC, RD, RE], "__slots__": []})
     BF = type("BF", (BlockFile,), {"BLOCKS": [], "__slots__": []})
     SF = type("SF", (SectionFile,), {"SECTIONS": [], "__slots__": []})
-    return {"RA": RA, "RB": RB, "RC": RC, "RD": RD, "RF": RF, "BF": BF, "SF": SF}
+    return {"RA": RA, "RB": RB, "RC": RC, "RD": RD, "RE": RE, "RF": RF, "BF": BF, "SF": SF}
 
 
 def obs_reg(r):
@@ -115,7 +120,7 @@ def apply(env, objs, step):
         objs[oid] = ("file", env["RF"].read(codec.dec_str(step["content"])))
     elif op == "file_append":
         kind, f = objs[oid]
-        if step["cls"] in ("RA", "RB", "RC", "RD"):
+        if step["cls"] in ("RA", "RB", "RC", "RD", "RE"):
             el = env[step["cls"]](data=[codec.dec_val(v) for v in step["data"]])
             if "tag" in step:
                 objs.setdefault("__tags__", {})[step["tag"]] = el
@@ -366,10 +371,15 @@ print({{k: v for k, v in out.get('checks', {{}}).items() if not v}})
 
 # ------------------------------------------------------------------ generators
 REG_VALS = [[{"i": 1}, {"s": codec.enc_str("ab")}, codec.enc_val(1.5)], [{"i": 22}, None, codec.enc_val(0.0)], [None, {"s": codec.enc_str("xyz")}, None], [{"i": -3}, {"s": []}, codec.enc_val(-2.25)]]
-LINES = ["AA   12 abcde   1.50\n", "BB  -34 x        2.25\n", "AA\n", "BB zzzz\n", "CC    7 qqq\n", "DD;lit;5\n", "DD;x\n", "garbage\n"]
+LINES = ["EE 25/12/2019 x\n", "EE 01/02/2020 y\n", "EE 12/25/2019\n", "AA   12 abcde   1.50\n", "BB  -34 x        2.25\n", "AA\n", "BB zzzz\n", "CC    7 qqq\n", "DD;lit;5\n", "DD;x\n", "garbage\n"]
+
+
+DATES = [{"d": [2020, 1, 2, 0, 0, 0, 0]}, {"d": [2019, 12, 25, 0, 0, 0, 0]}, None]
 
 
 def vals_for(cls, rng):
+    if cls == "RE":
+        return [rng.choice(DATES), rng.choice([{"s": codec.enc_str("z")}, None])]
     v = rng.choice(REG_VALS)
     if cls == "RC":
         v = v[:2]
@@ -399,7 +409,7 @@ def random_case(rng):
         k = kinds[oid]
         if oid not in created:
             if k == "reg":
-                cls = rng.choice(["RA", "RB", "RC", "RD"])
+                cls = rng.choice(["RA", "RB", "RC", "RD", "RE"])
                 steps.append({"obj": oid, "op": "new_reg", "cls": cls, "data": rng.choice([None, vals_for(cls, rng)])})
                 kinds[oid] = "reg:" + cls
             elif k == "file":
@@ -432,7 +442,7 @@ def random_case(rng):
                 steps.append({"obj": oid, "op": "file_move_in", "src": t["obj"], "tag": t["tag"], "cls": t["cls"], "data": t["data"]})
             elif r < 0.45:
                 if fcls == "RF" and rng.random() < 0.7:
-                    cls = rng.choice(["RA", "RB", "RC", "RD"])
+                    cls = rng.choice(["RA", "RB", "RC", "RD", "RE"])
                     st = {"obj": oid, "op": "file_append", "cls": cls, "data": vals_for(cls, rng), "tag": len(steps)}
                     steps.append(st)
                     tagged.append(st)
